@@ -184,12 +184,32 @@ func c18Gen(t *rapid.T) c18Case {
 	c := c18Case{RunPath: rapid.IntRange(0, 2).Draw(t, "runpath") == 0,
 		StartS: rapid.Int64Range(0, 4102444800).Draw(t, "start"), StartNS: rapid.Int64Range(0, 999999999).Draw(t, "startns")}
 	at := int64(0)
-	for i, n := 0, rapid.IntRange(1, 12).Draw(t, "nmsgs"); i < n; i++ {
+	for i, n := 0, rapid.IntRange(1, 16).Draw(t, "nmsgs"); i < n; i++ {
 		at += rapid.SampledFrom([]int64{0, 1, 999999999, int64(time.Second), int64(time.Hour)}).Draw(t, "gap")
 		if c.RunPath && at > int64(48*time.Hour) {
 			at = int64(48 * time.Hour)
 		}
 		m := c18Msg{From: rapid.SampledFrom(c18Hosts).Draw(t, "from"), AtNS: at}
+		// one message in four repeats an earlier one (verbatim, from another
+		// sender, or with one flag flipped): histories like A, B, A within one
+		// second are what any memoisation of "already seen" gets wrong
+		if len(c.Msgs) > 0 && rapid.IntRange(0, 3).Draw(t, "again") == 0 {
+			prev := c.Msgs[rapid.IntRange(0, len(c.Msgs)-1).Draw(t, "again-which")]
+			b, _ := json.Marshal(prev)
+			var cp c18Msg
+			_ = json.Unmarshal(b, &cp)
+			cp.AtNS = at
+			switch rapid.IntRange(0, 3).Draw(t, "again-how") {
+			case 0:
+				cp.From = m.From
+			case 1:
+				if cp.RA != nil {
+					cp.RA.M = !cp.RA.M
+				}
+			}
+			c.Msgs = append(c.Msgs, cp)
+			continue
+		}
 		switch rapid.IntRange(0, 5).Draw(t, "kind") {
 		case 0:
 			m.Kind = "rs"
@@ -205,7 +225,7 @@ func c18Gen(t *rapid.T) c18Case {
 				case 0:
 					ra.Opts = append(ra.Opts, vOpt{Kind: "raw"})
 				case 1:
-					ra.Opts = append(ra.Opts, c12GenOpt(t, rapid.SampledFrom([]string{"route", "rdnss", "dnssl", "mtu", "lla"}).Draw(t, "other")))
+					ra.Opts = append(ra.Opts, c12GenOpt(t, rapid.SampledFrom([]string{"route", "rdnss", "dnssl", "mtu", "lla"}).Draw(t, "other"), c12Prefixes))
 				default:
 					ra.Opts = append(ra.Opts, vOpt{Kind: "prefix", Prefix: rapid.SampledFrom(c18Prefixes).Draw(t, "prefix"), OnLink: rapid.Bool().Draw(t, "l"), Auto: rapid.Bool().Draw(t, "a"),
 						ValidS: rapid.SampledFrom([]int64{0, 1, 600, 86400, 4294967295}).Draw(t, "valid"), PrefS: rapid.SampledFrom([]int64{0, 1, 300, 14400, 4294967295}).Draw(t, "preferred")})
